@@ -164,6 +164,26 @@ PROPS["C02"] = dict(
     interleaving_measure="hash of the event log (frames emitted/injected with fake timestamps)",
 )
 
+PEER_STUB = ["the remote host: a scripted raw peer whose packets are built and parsed by an independent codec (netsim/codec), not by protocol/header"]
+
+PROPS["C13"] = dict(
+    engine="netsim", level="exploration",
+    quick=dict(runs=32000, workers=16),
+    thorough=dict(budget_s=600, workers=16),
+    rule="one evaluation = one seeded history of 5-60 steps against one real stack: single ICMPv4/ICMPv6 echo requests (identifier/sequence corners and "
+         "uniform, payload 0..MTU-28 with odd/even and boundary lengths, IPv4 ones optionally as two out-of-order fragments, one/fd-scatter/two-view "
+         "delivery), bursts of 1-30 requests pending at once, requests to foreign/broadcast addresses, unsolicited replies and other ICMP types, clock "
+         "advances; non-trivial = at least one request was answered; distinct = distinct event-log hash",
+    expected_probes=["answered", "burst_over_queue_capacity", "fragmented_request"],
+    real=NET_REAL, stubs=NET_STUBS + PEER_STUB, assumptions=NET_ASSUME + [
+        "the property does not quantify over schedules: yield perturbation is off in the gating runs"],
+    hang_is_violation=True,
+    level_text="seeded search over request histories; every emitted echo reply must mirror exactly one not-yet-answered request (identifier, sequence, "
+               "payload, swapped addresses; checksum verified by the C06 monitor), requests to addresses the stack does not own produce nothing, and a burst "
+               "with at most ten requests pending is answered completely (more than ten: at least ten); evidence, not proof",
+    level_note="the ten-slot bound is taken from the statement; IPv6 echo replies are produced inline and are simply all required",
+)
+
 PENDING = "check not built yet (work in progress; will be claimed once its simulation exists)"
 NOT_APPLICABLE = {
     "C15": "pure functions of their input (header codecs, RFC 1071 checksum): no schedule, clock, fault, I/O or second party for a simulator to control; "
